@@ -71,6 +71,22 @@ fn same(x: &str, y: &str) -> &'static str { if x == y { "same" } else { "diff" }
 /// functions that call a plane-section routine: run in a killable child process (see `tm_section`)
 fn calls_section(func: &str) -> bool { matches!(func, "tm_section" | "tm_section_m" | "tm_section_m_pos" | "tm_section_m_canon" | "tm_section_pos" | "tm_canon_section" | "tm_plane_pos" | "tm_plane_canon" | "tm_verdict" | "tm_verdict_pos" | "tm_verdict_canon") }
 
+/// order-independent signature of a mesh-intersection result (`intersect_meshes` iterates over hash maps with a random
+/// state: vertex and triangle order differ from call to call): kind, signed volume, area, bounding box of the vertices
+fn isect_sig(r: Result<Option<TriMesh>, crate::p3::transformation::MeshIntersectionError>) -> (u8, [f64; 8]) {
+    match r {
+        Err(_) => (0, [0.0; 8]), Ok(None) => (1, [0.0; 8]),
+        Ok(Some(m)) => { let v = m.vertices(); let (mut vol, mut area) = (0.0, 0.0);
+            let (mut lo, mut hi) = (V3::repeat(f64::MAX), V3::repeat(-f64::MAX));
+            for p in v { lo = lo.inf(&p.coords); hi = hi.sup(&p.coords); }
+            for t in m.indices() { let (a, b, c) = (v[t[0] as usize].coords, v[t[1] as usize].coords, v[t[2] as usize].coords);
+                vol += a.dot(&b.cross(&c)) / 6.0; area += (b - a).cross(&(c - a)).norm() * 0.5; }
+            (2, [vol, area, lo.x, lo.y, lo.z, hi.x, hi.y, hi.z]) } }
+}
+fn same_sig(x: (u8, [f64; 8]), y: (u8, [f64; 8])) -> &'static str {
+    let sc = 1.0 + x.1.iter().chain(y.1.iter()).fold(0.0f64, |m, v| m.max(v.abs()));
+    if x.0 == y.0 && x.1.iter().zip(y.1.iter()).all(|(a, b)| (a - b).abs() <= 1e-9 * sc * sc) { "same" } else { "diff" }
+}
 pub fn exec(func: &str, a: &mut Args) -> String {
     if std::env::var("C17_DRY").is_ok() { return "dry".into(); } // debugging aid: list the generated cases without calling parry
     match func {
@@ -227,6 +243,21 @@ pub fn exec(func: &str, a: &mut Args) -> String {
             match r {
                 Err(e) => format!("err {}", format!("{:?}", e).split(|c: char| !c.is_alphanumeric()).next().unwrap_or("?")),
                 Ok(None) => "none".into(), Ok(Some(m)) => format!("some {}", fmesh(&m)) } }
+        // Aabb::split_at_center (3-D octree / 2-D quad-tree split): `n boxes…`
+        "aabb_split_center" => { let x = aabb(a); let o = x.split_at_center();
+            let mut s = format!("{}", o.len()); for b in o.iter() { s.push(' '); s.push_str(&faabb(b)); } s }
+        "aabb2_split_center" => { let x = crate::p2::bounding_volume::Aabb::new(d2::p(a), d2::p(a)); let o = x.split_at_center();
+            let mut s = format!("{}", o.len()); for b in o.iter() { s.push_str(&format!(" {} {}", d2::fp(&b.mins), d2::fp(&b.maxs))); } s }
+        // frame glue, observed differentially: `intersection_with_cuboid(pm, cuboid, pc)` must have the same signature (kind, volume, area,
+        // bounding box; the routine's vertex order is not deterministic) as `intersection_with_local_cuboid(cuboid, lp)` on the local pose `lp` that the Lean model confirms bit-for-bit to be
+        // `pm.inv_mul(pc)`; `intersection_with_aabb(pm, aabb)` identical to `intersection_with_cuboid(pm, Cuboid(he), from(c))`
+        "cuboid_frame" => { let (m, _) = solid(a); let pm = d3::iso(a); let he = d3::v(a); let pc = d3::iso(a); let lp = d3::iso(a);
+            let cuboid = Cuboid::new(he);
+            same_sig(isect_sig(m.intersection_with_cuboid(&pm, false, &cuboid, &pc, false, 0.0)),
+                     isect_sig(m.intersection_with_local_cuboid(false, &cuboid, &lp, false, 0.0))).into() }
+        "aabb_frame" => { let (m, _) = solid(a); let pm = d3::iso(a); let bx = aabb(a); let he = d3::v(a); let c = d3::p(a);
+            same_sig(isect_sig(m.intersection_with_aabb(&pm, false, &bx, false, 0.0)),
+                     isect_sig(m.intersection_with_cuboid(&pm, false, &Cuboid::new(he), &d3::Isometry::from(c), false, 0.0))).into() }
         _ => "nofn".into(),
     }
 }
@@ -345,6 +376,9 @@ fn gen_isect(r: &mut Rng, v: &mut Vec<(String, String)>, n: usize) {
                     let pc = if variant == 2 { iso_of([0.0, 0.0, 0.0, 1.0], target.coords) } else { iso_of(q, target.coords) };
                     let he = if variant == 2 { he * 0.5 } else { he };
                     v.push(("isect_cuboid".into(), format!("{} {} {} {} {}", variant, hsolid(cc2, &outer), d3::hiso(&pos_o), d3::hv(&he), d3::hiso(&pc))));
+                    if variant == 2 { let bx = Aabb::from_half_extents(P3::from(pc.translation.vector), he);
+                        v.push(("aabb_frame".into(), format!("{} {} {} {} {}", hsolid(cc2, &outer), d3::hiso(&pos_o), haabb(&bx), d3::hv(&bx.half_extents()), d3::hp(&bx.center()))));
+                    } else { v.push(("cuboid_frame".into(), format!("{} {} {} {} {}", hsolid(cc2, &outer), d3::hiso(&pos_o), d3::hv(&he), d3::hiso(&pc), d3::hiso(&pos_o.inv_mul(&pc))))); }
                 }
             }
             // (b) DISJOINT (every fourth case) / (c) generic-position partial overlaps of convex solids
@@ -365,6 +399,9 @@ fn gen_isect(r: &mut Rng, v: &mut Vec<(String, String)>, n: usize) {
                     let variant = r.below(3);
                     let pc = if variant == 2 { iso_of([0.0, 0.0, 0.0, 1.0], c1.coords + dir * dist) } else { iso_of(q, c1.coords + dir * dist) };
                     v.push(("isect_cuboid".into(), format!("{} {} {} {} {}", variant, hsolid(cc1, &s1), d3::hiso(&p1), d3::hv(&he), d3::hiso(&pc))));
+                    if variant == 2 { let bx = Aabb::from_half_extents(P3::from(pc.translation.vector), he);
+                        v.push(("aabb_frame".into(), format!("{} {} {} {} {}", hsolid(cc1, &s1), d3::hiso(&p1), haabb(&bx), d3::hv(&bx.half_extents()), d3::hp(&bx.center()))));
+                    } else { v.push(("cuboid_frame".into(), format!("{} {} {} {} {}", hsolid(cc1, &s1), d3::hiso(&p1), d3::hv(&he), d3::hiso(&pc), d3::hiso(&p1.inv_mul(&pc))))); }
                 } else {
                     v.push(("mesh_isect".into(), format!("{} {} {} {}", hsolid(cc1, &s1), d3::hiso(&p1), hsolid(cc2, &s2), d3::hiso(&p2))));
                 }
@@ -502,6 +539,12 @@ pub fn gen(r: &mut Rng, thorough: bool) -> Vec<(String, String)> {
             4 => x.mins[axis] + (x.maxs[axis] - x.mins[axis]) * *r.pick(&[0.25, 0.5, 0.75, -0.25, 1.25]),
             _ => r.coord(lat, 60.0) };
         v.push(("aabb_split".into(), format!("{} {} {} {}", haabb(&x), axis, hx(bias), hx(eps))));
+        // ---- Aabb::split_at_center: the same boxes (incl. degenerate point boxes), flat boxes, 2-D boxes
+        v.push(("aabb_split_center".into(), haabb(&x)));
+        if it % 5 == 0 { let mut y = x; let k = r.below(3) as usize; y.maxs[k] = y.mins[k]; v.push(("aabb_split_center".into(), haabb(&y))); }
+        { let c2 = d2::gen_p(r, lat, 50.0); let he2 = d2::gen_he(r, lat);
+          let (lo, hi) = if r.below(20) == 0 { (c2, c2) } else { (c2 - he2, c2 + he2) };
+          v.push(("aabb2_split_center".into(), format!("{} {}", d2::hp(&lo), d2::hp(&hi)))); }
 
         // ---- Segment split: plane through an end point, through the middle, within epsilon of an end, parallel, beyond
         for _ in 0..2 {
@@ -675,6 +718,24 @@ pub fn gen(r: &mut Rng, thorough: bool) -> Vec<(String, String)> {
                 if j == 0 { v.push(("tm_cut".into(), args.clone())); }
                 v.push(("tm_section_m".into(), args.clone()));
                 v.push(("tm_section".into(), args));
+            }
+            // soups (fu5): the same mesh plus a duplicated triangle (same / opposite orientation), a degenerate triangle with a
+            // repeated index on an existing edge, or a point triangle — never flagged oriented (a vertex used by no triangle is NOT
+            // generated: the verdict oracles count every vertex as part of the surface). The section and the
+            // cutting routines are total on such input (`section_never_panics`, `local_split_never_panics`) and the models are
+            // compared bit for bit; planes through a vertex of the touched triangle, through its edge mid-point, sweep.
+            if it % 10 == 0 {
+                let (sv, mut si) = (mv.clone(), mi.clone());
+                match r.below(5) {
+                    0 => si.push(t), 1 => si.push([t[0], t[2], t[1]]),
+                    2 => si.push([t[0], t[0], t[1]]), 3 => { si.push([t[1], t[2], t[2]]); si.insert(0, [t[2], t[1], t[0]]); }
+                    _ => { si.push([t[2], t[2], t[2]]); si.push([t[0], t[1], t[0]]); } }
+                let eps = *r.pick(&[0.0, 0.0, 1e-9, 0.125]);
+                let bias = match r.below(4) {
+                    0 => ds[t[0] as usize], 1 => (ds[t[0] as usize] + ds[t[1] as usize]) * 0.5, 2 => (ds[t[1] as usize] + ds[t[2] as usize]) * 0.5 + eps,
+                    _ => lo + (hi - lo) * (r.range(1, 7) as f64) / 8.0 };
+                let args = format!("{} {} {} {}", hmesh(false, &sv, &si), d3::hv(&nrm), hx(bias), hx(eps));
+                for f in ["tm_split", "tm_verdict", "tm_cut", "tm_section_m", "tm_section"] { v.push((f.to_string(), args.clone())); }
             }
             if it % 8 == 0 {
                 let pos = d3::gen_iso(r, true, 2.0);
